@@ -1243,6 +1243,53 @@ func c16scenario(rep *hx.Report, add func(string, any), bin string, f c16flags, 
 	}
 	add(fmt.Sprintf("C16.Scn #ID %s %s %s %s %s", f.coq(), hx.Str("http"), hx.Str(strings.TrimPrefix(srv.base, "http://")), hx.List(parenAll(ops)), hx.List(parenAll(obs))),
 		map[string]any{"flags": f.summary(), "args": f.args(), "script": names})
+	// a burst of CONCURRENT receiver connects (after the modelled script, so the model is not
+	// concerned): every peer that is let in must get relay credentials minted for ITSELF
+	if created && turnOn && allGrammar && len(sessions) > 0 {
+		si := len(sessions) - 1
+		type burst struct {
+			peer string
+			c    *c16conn
+		}
+		bs := make([]burst, 8)
+		var wg sync.WaitGroup
+		for k := range bs {
+			bs[k].peer = nextPeer()
+			wsURL, err := app.VerifBuildWebSocketURL(srv.base, sessions[si].code, bs[k].peer, "receiver", 0)
+			if err != nil {
+				continue
+			}
+			wg.Add(1)
+			go func(k int, u string) {
+				defer wg.Done()
+				bs[k].c = c16dialReal(u)
+			}(k, wsURL)
+		}
+		wg.Wait()
+		for _, b := range bs {
+			if b.c == nil {
+				continue
+			}
+			conns = append(conns, b.c)
+			if b.c.status != 101 || b.c.creds == nil {
+				continue
+			}
+			rep.Count("concurrent-connect-with-credentials")
+			for _, cu := range b.c.creds.Servers {
+				e, err := ice.VerifParseTurnServer(cu)
+				if err != nil {
+					continue
+				}
+				_, pid, _ := strings.Cut(e.Username, ":")
+				replay := map[string]any{"flags": f.summary(), "args": f.args(), "concurrent_receivers": len(bs), "peer": b.peer, "credential_url": cu}
+				if pid != b.peer {
+					rep.Violate("turn-creds:other-peers-credentials", fmt.Sprintf("peer %q connecting concurrently with others received credentials minted for %q", b.peer, pid), replay)
+				} else if e.Password != c16restPassword(f.TurnSecret, e.Username) {
+					rep.Violate("turn-creds:password", fmt.Sprintf("peer %q: password is not the REST secret of user %q", b.peer, e.Username), replay)
+				}
+			}
+		}
+	}
 	if gi < 3 {
 		rep.Sample(map[string]any{"flags": f.summary(), "script": names})
 	}
